@@ -849,13 +849,14 @@ with SqlImpl.impl_store.impl_manager as impl:
 
     @impl(ops.shift)
     def _shift(x, by, empty_value=None):
+        # `n` and `fill_value` are constant parameters: they arrive as python values
         if by >= 0:
-            if empty_value is not None and not isinstance(empty_value.type, sqa.types.NullType):
+            if empty_value is not None:
                 return sqa.func.LAG(x, by, empty_value, type_=x.type)
             else:
                 return sqa.func.LAG(x, by, type_=x.type)
         if by < 0:
-            if empty_value is not None and not isinstance(empty_value.type, sqa.types.NullType):
+            if empty_value is not None:
                 return sqa.func.LEAD(x, -by, empty_value, type_=x.type)
             else:
                 return sqa.func.LEAD(x, -by, type_=x.type)
